@@ -27,7 +27,31 @@ type vchan struct {
 	// rendezvous for unbuffered channels: a parked sender offers its value
 	sendq []*parkedSend
 	recvq int // number of goroutines parked in a receive on this channel
-	timer *vtimer
+	// receivers parked on this channel (plain receives and selects with a receive case)
+	waiters []*recvWaiter
+	// values handed over by a select-send to a parked receiver: that receiver is committed to take them
+	mustRecv int
+	timer    *vtimer
+}
+
+// recvWaiter is a goroutine parked in a receive (or in a select with a receive
+// case) on a channel. stillBlocked tells whether nothing else has made it
+// runnable in the meantime: only then can a select-send on an unbuffered
+// channel rendezvous with it (a goroutine woken by another case has left the
+// wait queues in the real runtime).
+type recvWaiter struct {
+	stillBlocked func() bool
+	probing      bool
+}
+
+func (c *vchan) addWaiter(w *recvWaiter) { c.waiters = append(c.waiters, w) }
+func (c *vchan) removeWaiter(w *recvWaiter) {
+	for k, e := range c.waiters {
+		if e == w {
+			c.waiters = append(c.waiters[:k], c.waiters[k+1:]...)
+			return
+		}
+	}
 }
 
 type parkedSend struct {
@@ -372,6 +396,9 @@ func (c *vchan) doRecv() (value, bool) {
 	if len(c.buf) > 0 {
 		v := c.buf[0]
 		c.buf = c.buf[1:]
+		if c.mustRecv > 0 {
+			c.mustRecv--
+		}
 		return v, true
 	}
 	if len(c.sendq) > 0 {
@@ -389,7 +416,10 @@ func (i *interpreter) chanRecv(c *vchan) (value, bool) {
 		i.block("receive from nil channel", func() bool { return false })
 	}
 	c.recvq++
+	w := &recvWaiter{stillBlocked: func() bool { return !c.canRecv() }}
+	c.addWaiter(w)
 	i.block("receive", c.canRecv)
+	c.removeWaiter(w)
 	c.recvq--
 	return c.doRecv()
 }
@@ -415,7 +445,19 @@ func (c *vchan) canSend() bool {
 	if c.cap > 0 {
 		return len(c.buf) < c.cap
 	}
-	return c.recvq > 0
+	// unbuffered: a receiver must be parked on the channel and still be blocked
+	for _, w := range c.waiters {
+		if w.probing {
+			continue // (two selects probing each other)
+		}
+		w.probing = true
+		blocked := w.stillBlocked()
+		w.probing = false
+		if blocked {
+			return true
+		}
+	}
+	return false
 }
 
 type targetPanicText string
@@ -454,25 +496,37 @@ func (i *interpreter) selectOp(fr *frame, instr *ssa.Select) value {
 	chosen := -1
 	rs := ready()
 	if len(rs) == 0 && instr.Blocking {
+		w := &recvWaiter{stillBlocked: func() bool { return len(ready()) == 0 }}
 		for _, sc := range cases {
 			if !sc.send && sc.c != nil {
 				sc.c.recvq++
+				sc.c.addWaiter(w)
 			}
 		}
 		i.block("select", func() bool { return len(ready()) > 0 })
 		for _, sc := range cases {
 			if !sc.send && sc.c != nil {
 				sc.c.recvq--
+				sc.c.removeWaiter(w)
 			}
 		}
 		rs = ready()
 	}
 	if len(rs) > 0 {
-		if len(rs) > 1 {
-			// Go picks uniformly at random among ready cases: explore all
-			chosen = rs[i.chooseN(len(rs), "select")]
-		} else {
-			chosen = rs[0]
+		// a value handed over by a select-send commits this receiver to that case
+		for _, k := range rs {
+			if !cases[k].send && cases[k].c.mustRecv > 0 {
+				chosen = k
+				break
+			}
+		}
+		if chosen < 0 {
+			if len(rs) > 1 {
+				// Go picks uniformly at random among ready cases: explore all
+				chosen = rs[i.chooseN(len(rs), "select")]
+			} else {
+				chosen = rs[0]
+			}
 		}
 	}
 	var recv value
@@ -486,8 +540,10 @@ func (i *interpreter) selectOp(fr *frame, instr *ssa.Select) value {
 			if sc.c.cap > 0 {
 				sc.c.buf = append(sc.c.buf, sc.v)
 			} else {
-				// a receiver is parked: hand the value over through the buffer
+				// a receiver is parked and still blocked: hand the value over through the buffer; it is
+				// committed to receive it (rendezvous)
 				sc.c.buf = append(sc.c.buf, sc.v)
+				sc.c.mustRecv++
 			}
 		} else {
 			recv, recvOk = sc.c.doRecv()
